@@ -184,8 +184,9 @@ theorem encode_fixedStr_wire (size : Nat) (lenK : IntK) (cs : Name)
       .ok (leBytes lenK.size cs.length ++ cs.map UInt8.ofNat ++ zeros (size - cs.length)) ∧
     (leBytes lenK.size cs.length ++ cs.map UInt8.ofNat ++ zeros (size - cs.length)).length = lenK.size + size := by
   constructor
-  · simp [encode, encodeFixedStr, WF.packInt_len lenK cs.length hk hl, text_latin1_wire cs hc,
-      bind, Except.bind]
+  · have ht : cs.take size = cs := List.take_of_length_le hs
+    simp only [encode, encodeFixedStr, ht]
+    simp [WF.packInt_len lenK cs.length hk hl, text_latin1_wire cs hc, bind, Except.bind]
   · simp [leBytes_length, zeros]; omega
 
 /-- arrays are the concatenation of their elements' encodings -/
